@@ -9,3 +9,7 @@ CONSTANTS
   WrapSet = "core"
   SlRange = 3
   EmitAst = FALSE
+  ExcludeFilterOnNonArray = TRUE
+  ExcludeMergeNoOverride = TRUE
+  ExcludeNotBeforePipe = TRUE
+  ExcludePipeIntoLiteral = TRUE
